@@ -40,6 +40,8 @@ func C14(seed uint64, run int) *spec.Spec {
 		}
 		if r.Chance(0.3) {
 			st.Extra = r.Range(1, 4)
+		} else if r.Chance(0.2) {
+			st.Rename = r.U64()>>1 | 1
 		}
 		s.History = append(s.History, st)
 	}
